@@ -297,8 +297,8 @@ def rule_ratioform(ctx: Ctx) -> List[Ob]:
       for f in ctx.repo.funcs_in(q.split(".")[0]):
         if not ("lb" in f.params and "ub" in f.params):
             continue
-        from ..flow import Expander, selection_like
-        ex = Expander(ctx, f, only=selection_like)
+        from ..flow import Expander, bound_ratio_like
+        ex = Expander(ctx, f, only=bound_ratio_like)
         parents = {id(c): p for p in ast.walk(f.node) for c in ast.iter_child_nodes(p)}
         for w in walk_no_nested(f.node):
             if isinstance(w, ast.Call) and dotted(w.func) == "np.where" and len(w.args) == 3 and \
@@ -835,6 +835,21 @@ def rule_kfact(ctx: Ctx) -> List[Ob]:
             if e.id == "K":
                 return ("K",)
             ds = defs.get(e.id, [])
+            if len(ds) > 1 and ds[0] is not None and all(d is None for d in ds[1:]) and isinstance(ds[0], ast.Call) and \
+                    (dotted(ds[0].func) or "").split(".")[-1] in ("zeros", "zeros_like"):
+                # a preallocated zero matrix filled block by block: LK[:m, :m] = L11 ...
+                blocks = {}
+                for st in f.node.body:
+                    if isinstance(st, ast.Assign) and len(st.targets) == 1 and isinstance(st.targets[0], ast.Subscript) and src(st.targets[0].value) == e.id:
+                        sl = st.targets[0].slice
+                        if not (isinstance(sl, ast.Tuple) and len(sl.elts) == 2):
+                            return ("?", src(st))
+                        a, b = rng(sl.elts[0]), rng(sl.elts[1])
+                        if a is None or b is None or (a, b) in blocks:
+                            return ("?", src(st))
+                        blocks[(a, b)] = kf(st.value)
+                if len(blocks) == len(ds) - 1:
+                    return ("block",) + tuple(blocks.get(k_, ("0",)) for k_ in ((0, 0), (0, 1), (1, 0), (1, 1)))
             return kf(ds[0]) if len(ds) == 1 and ds[0] is not None else ("?", e.id)
         if isinstance(e, ast.Subscript) and isinstance(e.slice, ast.Tuple) and len(e.slice.elts) == 2 and src(e.value) != "K":
             # K[rows][:, cols]: a row-range view of K, then a column range
@@ -1181,13 +1196,25 @@ def rule_ksolve(ctx: Ctx) -> List[Ob]:
     m half the size of K; and the right-hand side and the factor are those of this call"""
     f = ctx.repo.func("subspacemin.subspace_minimization")
     obs: List[Ob] = []
-    # the branch that uses the factor
-    use = [s for s in walk_no_nested(f.node) if isinstance(s, ast.If) and "LK" in src(s.test) and "None" in src(s.test)]
-    need(len(use) >= 1, "KSOLVE: the branch on the factor LK was not found")
-    br = use[0]
-    t = br.test
-    has = isinstance(t, ast.Compare) and isinstance(t.ops[0], ast.IsNot)
-    body = br.body if has else br.orelse
+    # the statement list that applies the factor
+    def _bodies(node):
+        for x in walk_no_nested(node):
+            for fld in ("body", "orelse", "finalbody"):
+                b = getattr(x, fld, None)
+                if isinstance(b, list) and b and isinstance(b[0], ast.stmt):
+                    yield b
+    body = None
+    for b in _bodies(f.node):
+        if any(isinstance(s, ast.Assign) and isinstance(s.value, ast.Call) and (dotted(s.value.func) or "").endswith("solve_triangular")
+               and s.value.args and src(s.value.args[0]).split(".")[0] == "LK" for s in b):
+            need(body is None, "KSOLVE: the factor LK is applied in more than one statement list")
+            body = b
+    need(body is not None, "KSOLVE: no triangular solve with the factor LK was found")
+    br = body[0]
+    # only the statements from the first to the last operation on the right-hand side matter
+    idx = [i for i, s in enumerate(body) if (isinstance(s, ast.Assign) and isinstance(s.value, ast.Call) and (dotted(s.value.func) or "").endswith("solve_triangular"))]
+    body = [s for s in body[idx[0]:idx[-1] + 1]
+            if not (isinstance(s, (ast.Assign, ast.AnnAssign)) and src(s.targets[0] if isinstance(s, ast.Assign) else s.target) in ("K", "LK"))]
     seq = []
     alias: Dict[str, str] = {}
     for s in body:
